@@ -816,6 +816,28 @@ func (env *Env) call(x *ast.CallExpr) (tv, error) {
 			return tv{}, err
 		}
 		return tv{t: store(m.t, k.t, v.t), typ: m.typ}, nil
+	case "marked":
+		// marked(name): the site of mark[name] of this function was reached with its expression true
+		id, ok := x.Args[0].(*ast.Ident)
+		if !ok {
+			return tv{}, env.errf(x, "marked(name) needs the name of a mark of this function")
+		}
+		if env.frame == nil {
+			// the contract is being used at a call site: a mark is internal to the callee, the caller knows nothing of it
+			return tv{t: ex.sc.freshConst("marked", SBool)}, nil
+		}
+		found := false
+		if env.frame.contract != nil {
+			for _, sa := range env.frame.contract.Sites {
+				if sa.Mark && sa.Label == id.Name {
+					found = true
+				}
+			}
+		}
+		if !found {
+			return tv{}, env.errf(x, "no mark[%s] in this function's contract", id.Name)
+		}
+		return tv{t: ex.get(env.st, markComp(env.frame.fn, id.Name), SBool)}, nil
 	case "callarg":
 		// callarg(i): the i-th argument (receiver not counted) of the call a site assertion is attached before
 		ci, ok := env.siteInstr.(ssa.CallInstruction)
